@@ -63,7 +63,7 @@ def vs_ok(q=0.01):
 def vs_bad():
     """Volume specs that are meant to be refused (or sit exactly on / one ulp around the limit)."""
     return st.one_of(
-        st.fixed_dictionaries({"over": st.sampled_from([0.01, 0.5, 1.0, 10.0, 1000.0])}),
+        st.fixed_dictionaries({"over": st.sampled_from([0.01, 0.01, 0.02, 0.5, 1.0, 10.0, 1000.0])}),
         st.fixed_dictionaries({"lim": st.sampled_from([-2, -1, 0, 0, 1, 2])}),
         st.sampled_from(["inf", "huge"]),
     )
@@ -586,8 +586,7 @@ def execute(world, conc):
             if kind == "add":
                 comps = None
                 if conc.get("comps"):
-                    n = len(flat_pairs(world, conc))
-                    comps = [{k: float(v) for k, v in known_comp(None, conc["comps"] + j).items()} for j in range(n)]
+                    comps = _comps_arg(world, conc)
                 lw.add(*args, label=conc.get("label"), compositions=comps)
             else:
                 lw.remove(*args, label=conc.get("label"))
@@ -595,8 +594,7 @@ def execute(world, conc):
             lw = labs[conc["lw"]]
             kw = dict(conc.get("kw") or {})
             if kind == "dispense" and conc.get("comps"):
-                n = len(flat_pairs(world, conc))
-                kw["compositions"] = [{k: float(v) for k, v in known_comp(None, conc["comps"] + j).items()} for j in range(n)]
+                kw["compositions"] = _comps_arg(world, conc)
             getattr(wl, kind)(lw, ids_arg(conc["wells"]), vols_arg(conc["vols"], conc.get("ints")), label=conc.get("label"), **kw)
         elif kind == "transfer":
             wl.transfer(
@@ -637,6 +635,17 @@ def execute(world, conc):
 
 
 # ---------------------------------------------------------------------------------------------
+def _comps_arg(world, conc):
+    """The `compositions` argument of add/dispense: known compositions, or forms that say "nothing known"
+    ("empty": an empty dict per well, "nones": None per well)."""
+    n = len(flat_pairs(world, conc))
+    if conc["comps"] == "empty":
+        return [{} for _ in range(n)]
+    if conc["comps"] == "nones":
+        return [None for _ in range(n)]
+    return [{k: float(v) for k, v in known_comp(None, conc["comps"] + j).items()} for j in range(n)]
+
+
 # model application
 # ---------------------------------------------------------------------------------------------
 def model_apply(world, conc):
@@ -649,7 +658,7 @@ def model_apply(world, conc):
     elif kind in ("add", "dispense", "evo_dispense"):
         for j, (i, idx, dv, _) in enumerate(flat_pairs(world, conc)):
             amounts = None
-            if conc.get("comps") and kind != "evo_dispense":
+            if conc.get("comps") and kind != "evo_dispense" and not isinstance(conc["comps"], str):
                 amounts = {k: f * Fraction(dv) for k, f in known_comp(None, conc["comps"] + j).items()}
             M[i].add(idx, Fraction(dv), amounts)
     elif kind == "transfer":
